@@ -260,15 +260,25 @@ class Engine(Interp, InterpExpr, InterpComp, InterpStmt, InterpCall, InterpBuilt
                     ev = ExcV(exc_cls, (self.fresh_value('exc_code', INT), self.opaque_str()))
                     bindings['exc'] = ev
                     for cl in con.exc.get(exc_cls, []):
-                        self.run.assume(self.eval_clause(cl, con.module, bindings))
+                        if not self._effect_clause(cl):
+                            self.run.assume(self.eval_clause(cl, con.module, bindings))
                     raise PyRaise(ev, line)
         if rty == ANY:
             raise Unsupported(f'contract {con.target}: return type unknown (add returns=)')
         result = self.fresh_value('ret_' + fi.name, rty)
         bindings['result'] = result
         for cl in con.post:
-            self.run.assume(self.eval_clause(cl, con.module, bindings))
+            if not self._effect_clause(cl):
+                self.run.assume(self.eval_clause(cl, con.module, bindings))
         return result
+
+    @staticmethod
+    def _effect_clause(cl):
+        """clauses named post_effect* / exc_<Class>_effect* speak about the effect log of the function's own execution:
+        they are proved when the function is verified and NOT assumed at call sites (the caller's log only receives the
+        callee's own `effect=` entry)"""
+        n = cl.name
+        return n.startswith('post_effect') or (n.startswith('exc_') and n.split('_', 2)[-1].startswith('effect'))
 
     def call_ext_contract(self, con, args, kwargs, line):
         self.externals_used.add(con.target)
